@@ -52,9 +52,10 @@ Judge(e) ==
             /\ Report(ok => (c1 \in E /\ e.post.attr = e.pre.attr), e, "C16.effect")
 
 Init == k = 1
+(* Judge is evaluated as an EXPRESSION (inside the IF), never as an action: TLC must not split   *)
+(* its disjunctions into sub-actions.  It always yields TRUE; failures are printed.              *)
 Next == /\ k <= Len(Batch)
-        /\ Judge(Batch[k])
-        /\ k' = k + 1
+        /\ k' = IF Judge(Batch[k]) THEN k + 1 ELSE k + 1
 Done == (k = Len(Batch) + 1) => PrintT(<<"JUDGED", Len(Batch)>>)
 Spec == Init /\ [][Next]_k
 =============================================================================
